@@ -6,6 +6,8 @@ from ..lib import (params, returns_of, is_none_const, dominating_literals, all_p
 from . import storefam as S
 from .fsproto import path_class, FINAL, TEMP, UNKNOWN
 
+from . import extra as X
+
 EXPLANATION = ("Two boundary clauses, fully structural: (1) the set of mutating Store-API methods is *derived* from the effect "
                "summaries of the leaf stores, and the read-only view must override each of them with a body that raises on every "
                "path (openbin: on every non-read mode), while nothing reachable on the view forwards a non-read operation to the "
@@ -253,3 +255,4 @@ def run(chk):
     rule_resource_taint(chk, "C17.5")
     chk.xref("FileStore.path_for_key/metadata_path_for_key reject the reserved metadata folder name only by `assert` (stripped by -O); "
              "keys below __metadata__/ address metadata files as data (inside the root, so not a C17 violation)")
+    X.rule_read_only_identity(chk, "C17.6")
